@@ -231,3 +231,73 @@ def check(ctx):
                 pairs[py.try_fold(e.elts[0], wm)] = P.src(e.elts[1])
     r3.check(pairs == {'name': 'constant.name', 'value': 'constant.value', 'c:type': 'constant.ctype'},
              '_write_constant attributes', wm.rel, wc.lineno, 'constant attributes written: %s' % pairs, detail=pairs)
+
+    # ---- R4 common prefix is folded over every member, and "no shared word" is recognised
+    r4 = ctx.rule('R4', 'common prefix folded over all members; empty prefix recognised; width guards see through aliases; dumped values keep their sign', floor=6)
+    f = py.func('transformer', 'Transformer._enum_common_prefix')
+    loops = [n for n in f.body if isinstance(n, ast.For)]
+    if len(loops) != 1 or not P.src(loops[0].iter).endswith('.child_list') or not isinstance(loops[0].target, ast.Name):
+        raise AnalysisError('_enum_common_prefix: member loop not recognised')
+    lp = loops[0]
+    cv = lp.target.id
+    folds = [(t, v, st) for t, v, st in P.stores_in(lp) if isinstance(t, ast.Name) and isinstance(v, ast.Call) and P.call_name(v) == 'common_prefix']
+    if len(folds) != 1:
+        raise AnalysisError('_enum_common_prefix: prefix = common_prefix(prefix, child.ident) not found')
+    acc = folds[0][0].id
+    gs = [g.text() for g in P.guards(folds[0][2], stop=lp) if g.kind in ('if', 'early')]
+    r4.check(gs == ['not (%s is None)' % acc] and [P.src(a) for a in folds[0][1].args] == [acc, '%s.ident' % cv], 'every member after the first narrows the prefix', rel,
+             folds[0][2].lineno, 'the common prefix is recomputed only when %s: members that happen to start with the text accumulated so far (FOO_MODE_READ / '
+             'FOO_MODE_READWRITE) are skipped and the prefix stops at a non-word boundary' % gs, detail=gs)
+    inits = [P.src(v) for t, v, st in P.stores_in(lp) if isinstance(t, ast.Name) and t.id == acc and not (isinstance(v, ast.Call) and P.call_name(v) == 'common_prefix')]
+    r4.check(inits == ['%s.ident' % cv], 'prefix starts from the first member', rel, lp.lineno, 'initial prefix: %s' % inits)
+    # sentinels the caller tests for
+    sentinels = set()
+    for n in P.walk_no_nested(f):
+        if isinstance(n, ast.Compare) and isinstance(n.left, ast.Name) and n.left.id == acc and len(n.ops) == 1 and isinstance(n.ops[0], ast.Eq):
+            v = py.try_fold(n.comparators[0], tm, default=Ellipsis)
+            if v is not Ellipsis:
+                sentinels.add(v)
+    inner = [n for n in f.body if isinstance(n, ast.FunctionDef) and n.name == 'common_prefix']
+    if not inner:
+        raise AnalysisError('_enum_common_prefix: nested common_prefix() not found')
+    cp = inner[0]
+    for p_ in ast.walk(cp):
+        for c_ in ast.iter_child_nodes(p_):
+            c_._parent = p_
+    listvar = [t.id for t, v, st in P.stores_in(cp) if isinstance(t, ast.Name) and isinstance(v, ast.List) and not v.elts]
+    mism = [n for n in ast.walk(cp) if isinstance(n, ast.Return) and any(isinstance(g.test, ast.Compare) and isinstance(g.test.ops[0], ast.NotEq) for g in P.guards(n))]
+    for rt in mism:
+        gt = [g.text() for g in P.guards(rt)]
+        nonempty = any(g == 'not (not %s)' % lv_ or g == lv_ for g in gt for lv_ in listvar)
+        if nonempty:
+            r4.ok('mismatch return with shared words', rel, rt.lineno)
+            continue
+        try:
+            val = py.fold(rt.value, tm, dict((lv_, []) for lv_ in listvar))
+        except P.Unfoldable:
+            val = None
+        r4.check(val in sentinels, 'members sharing no word yield the empty prefix', rel, rt.lineno,
+                 'when two members differ in their first word common_prefix() returns %r, but _enum_common_prefix() only recognises %s as "no common prefix": '
+                 'member names lose their first character instead of the namespace prefix' % (val, sorted(map(repr, sentinels))), detail={'returns': val})
+    # width guards see through aliases
+    f = py.func('transformer', 'Transformer._create_const')
+    guard_vars = set()
+    for n in P.walk_no_nested(f):
+        if isinstance(n, ast.Compare) and isinstance(n.left, ast.Name) and re.match(r'TYPE_UINT\d+$', py.const_name(n.comparators[0], tm) or ''):
+            guard_vars.add(n.left.id)
+    if len(guard_vars) != 1:
+        raise AnalysisError('_create_const: width guards do not test a single variable: %s' % sorted(guard_vars))
+    gv = guard_vars.pop()
+    srcs = [(P.src(v), st) for t, v, st in P.stores_in(f) if isinstance(t, ast.Name) and t.id == gv]
+    ok = False
+    for vtxt, st in srcs:
+        # the value assigned under isinstance(..., ast.Type) must come from self.resolve_aliases(...)
+        if isinstance(st.value, ast.Name):
+            d = [P.src(v) for t, v, s_ in P.stores_in(f) if isinstance(t, ast.Name) and t.id == st.value.id]
+            if any(x.startswith('self.resolve_aliases(') for x in d) and any('isinstance(%s, ast.Type)' % st.value.id == g.text() for g in P.guards(st)):
+                ok = True
+    r4.check(ok, 'unsigned-width guards look at the fully unaliased type', rel, f.lineno,
+             'the type compared with TYPE_UINT<N> is not the result of resolve_aliases(): a constant cast to an alias of an alias of guint32 is not wrapped '
+             '(assignments to %s: %s)' % (gv, [s_ for s_, x in srcs]), detail=[s_ for s_, x in srcs])
+    from . import c12
+    c12.printed_value_signedness(ctx, r4)
